@@ -314,7 +314,7 @@ def read_arm(pat, body, S, ctor_ids, ctor_fields):
     # recognised by their distinctive calls and described by a code
     def push_re(b):
         return [(m.group(1), m.group(2)) for m in re.finditer(r"push\(\s*Op::(\w+)\s*(?:\{((?:[^{}]|\{[^{}]*\})*)\})?\s*\)", b, flags=re.S)]
-    if re.search(r"as_array\(\)\?\.iter\(\)\.map\(\|p\|\s*p\.as_number\(\)\)", body):
+    if re.search(r"as_array\(\)\?\.iter\(\)\.map\(\s*(?:\|(\w+)\|\s*\1\.as_number\(\)|Primitive::as_number)\s*\)", body):
         m = re.search(r"let\s+(\w+)\s*=\s*" + ARGNEXT + r"\s*;\s*let\s+(\w+)\s*=\s*\1\.as_array", body)
         ph = re.search(r"let\s+(\w+)\s*=\s*" + ARGNEXT + r"\.as_number\(\)\?", body)
         ps = push_re(body)
@@ -603,9 +603,11 @@ def write_arm(ctor, tag, env, arm, S, ctor_ids, ctor_fields):
             s, kw = write_seq(b, env, S)
             out.append((cid, tag + ([guard] if guard is not None else []) + [700 + env[m.group(7)][1]], kw, s, 0))
         return out
-    if ctor in ("StrokeColor", "FillColor") and "for p in" in arm:
+    if ctor in ("StrokeColor", "FillColor") and any(v[0] == "color" and v[1] == "Other" for v in env.values()):
+        # every operand followed by a space, then the keyword (the loop may live in a private helper: the caller inlines it)
+        (rest,) = [n for n, v in env.items() if v[0] == "color" and v[1] == "Other"]
         kw = re.search(r"writeln!\(\s*f\s*,\s*\"(\w+)\"\s*\)", arm).group(1)
-        if not re.search(r"for\s+p\s+in\s+args\s*\{\s*p\.serialize\(f\)\?;\s*write!\(f,\s*\" \"\)\?;\s*\}", arm):
+        if not re.search(r"for\s+(\w+)\s+in\s+" + rest + r"(?:\.iter\(\))?\s*\{\s*\1\.serialize\(f\)\?;\s*write!\(f,\s*\" \"\)\?;\s*\}", arm):
             raise ValueError("Color::Other arm shape")
         return [(cid, tag, kw, [SPECIAL["rest"]], 0)]
     if ctor == "TextDrawAdjusted":
@@ -820,7 +822,8 @@ def extract(g, X):
               "content.rs:OpBuilder::add", read_table)
 
     def write_table():
-        b = X.fn_body(cont, "serialize_ops")
+        # statements moved into private helper fns are read where they are called (one chain of helpers)
+        b = X.inline_calls(X.fn_body(cont, "serialize_ops"), cont)
         mb = match_body(b, r"match\s+ops\[0\]\s*\{", "match ops[0]")
         ents = write_entries(mb, S, state["ids"], state["fields"])
         if not re.search(r"let\s+mut\s+current_point\s*=\s*None", b):
